@@ -45,6 +45,11 @@ func (m MediaType) String() string {
 }
 
 func ParseMediaType(s string) (MediaType, error) {
+	if s == "" {
+		// the text form of the zero value (see String)
+		return MediaType{}, nil
+	}
+
 	var suffix string
 	values := strings.Split(s, "+")
 	if len(values) > 1 {
